@@ -296,6 +296,11 @@ func (j *Job) runPath(solver *Solver, prefix []Decision) {
 			if j.wantCandidate("no-panic") {
 				j.tookCandidate("no-panic")
 				p.cands = append(p.cands, Candidate{AssertID: "no-panic", Kind: "panic", Msg: endMsg, Model: m, Margin: margin, Path: p.pathString()})
+				// the first model tends to sit on a float edge the native run resolves the other way:
+				// offer two more in which every wide input differs
+				for _, m2 := range p.moreModels(TTrue, m, 2) {
+					p.cands = append(p.cands, Candidate{AssertID: "no-panic", Kind: "panic", Msg: endMsg, Model: m2, Margin: false, Path: p.pathString()})
+				}
 			}
 			j.noteFailing("no-panic")
 		}
